@@ -1,12 +1,18 @@
 #!/bin/sh
 # usage: tools/try_mutant.sh <patch.diff> <PROP> [extra ./check args]
 # Applies a seeded change to /repo, runs the check, and always reverts the working tree.
+# The evidence file of the property is put back afterwards (evidence describes the unchanged tree);
+# the run on the changed tree is kept as /verif/target/mutant-evidence/<PROP>.json.
 patch="$(realpath "$1")"; prop="$2"; shift 2
 cd /repo || exit 3
 if [ -n "$(git status --porcelain --untracked-files=no)" ]; then echo "repo dirty, refusing"; exit 3; fi
 git apply "$patch" || { echo "patch does not apply"; exit 3; }
+mkdir -p /verif/target/mutant-evidence
+[ -f /verif/evidence/$prop.json ] && cp /verif/evidence/$prop.json /verif/target/mutant-evidence/$prop.saved
 cd /verif && ./check "$prop" "$@"
 rc=$?
 git -C /repo checkout -- .
+[ -f /verif/evidence/$prop.json ] && cp /verif/evidence/$prop.json /verif/target/mutant-evidence/$prop.json
+[ -f /verif/target/mutant-evidence/$prop.saved ] && mv /verif/target/mutant-evidence/$prop.saved /verif/evidence/$prop.json
 echo "mutant exit=$rc"
 exit $rc
